@@ -60,6 +60,19 @@ impl Channel {
         headers: HeaderMap,
         body: Body,
     ) -> Result<Response<hyper::Body>, Error> {
+        #[cfg(datacake_verif)]
+        if let Some((state, policy)) = super::verif::lookup(self.remote_addr) {
+            return super::verif::send_in_memory(
+                state,
+                policy,
+                self.remote_addr,
+                metadata.to_uri_path(),
+                headers,
+                body,
+            )
+            .await;
+        }
+
         let uri = format!("http://{}{}", self.remote_addr, metadata.to_uri_path(),);
         let mut request = Request::builder()
             .method(Method::POST)
